@@ -384,6 +384,8 @@ def strip_targs(s):
             else:
                 out.append("operator")
                 i = j
+            if s.startswith(" <", i):          # "operator< <char, ...>"
+                i += 1
             continue
         if s[i] == "<":
             d = 0
@@ -437,6 +439,84 @@ def cxx_corpus(ctx, nclasses, nfuncs, nsubst=1):
             unmatched += 1
             res.append((m.encode(), None, sorted(names[m])))
     ctx.extra["corpus_cxx"] = {"symbols": len(ms), "with_oracle": len(ms) - unmatched, "declared_names": len(want)}
+    return res
+
+
+STD_SNIPPETS = [
+    ("void {m}(const {R}& r)", "{v}.push_back(r); {mp}[r.name] = std::make_shared<{R}>(r);"),
+    ("std::optional<{R}> {m}(const std::string& n) const",
+     "auto it = {mp}.find(n); if (it == {mp}.end()) return std::nullopt; return *it->second;"),
+    ("void {m}()", "std::sort({v}.begin(), {v}.end()); std::reverse({v}.begin(), {v}.end());"),
+    ("int {m}(int x) const", "int n = x; for (const auto& r : {v}) n += r.k; return n;"),
+    ("std::vector<std::string> {m}() const", "std::vector<std::string> o; for (auto& kv : {mp}) o.push_back(kv.first); return o;"),
+    ("void {m}(std::set<int>& s, std::list<{R}>& l)", "for (auto& r : l) s.insert(r.k); l.clear();"),
+    ("std::tuple<int, std::string, {R}*> {m}(std::deque<{R}>& d)", "return std::make_tuple(d.front().k, d.front().name, &d.front());"),
+    ("std::unique_ptr<{R}> {m}(int k)", "auto p = std::make_unique<{R}>(); p->k = k; return p;"),
+    ("bool {m}(const std::pair<int, {R}>& a, const std::pair<int, {R}>& b) const", "return a.first < b.first || a.second < b.second;"),
+    ("void {m}(std::function<void({R}&)> f)", "for (auto& r : {v}) f(r);"),
+    ("std::map<int, std::vector<{R}>> {m}() const", "std::map<int, std::vector<{R}>> o; for (auto& r : {v}) o[r.k].push_back(r); return o;"),
+    ("std::string {m}(const std::string& a, const char* b) const", "return a + b + std::to_string({v}.size());"),
+]
+
+
+def gen_std(rng):
+    """a translation unit that instantiates libstdc++ containers with generated user types"""
+    ids = Ident(rng)
+    ns, R, S = ids.new(2, 8), ids.new(2, 8), ids.new(2, 8)
+    v, mp = ids.new(1, 4), ids.new(1, 4)
+    lines = ["#include <vector>", "#include <string>", "#include <map>", "#include <set>", "#include <list>", "#include <deque>",
+             "#include <tuple>", "#include <memory>", "#include <algorithm>", "#include <functional>", "#include <optional>",
+             "namespace %s {" % ns,
+             "struct %s { int k; std::string name; bool operator<(const %s& o) const { return k < o.k; } };" % (R, R)]
+    decls, defs = [], []
+    for sig, body in rng.sample(STD_SNIPPETS, rng.randrange(5, len(STD_SNIPPETS) + 1)):
+        m = ids.new()
+        fmt = dict(m=m, R=R, v=v, mp=mp)
+        d = sig.format(**fmt)
+        decls.append(d + ";")
+        ret, rest = d.split(" " + m + "(", 1)
+        defs.append("%s %s::%s(%s { %s }" % (ret, S, m, rest, body.format(**fmt)))
+    lines.append("struct %s { std::vector<%s> %s; std::map<std::string, std::shared_ptr<%s>> %s; %s };"
+                 % (S, R, v, R, mp, " ".join(decls)))
+    lines += defs
+    lines.append("}")
+    return "\n".join(lines) + "\n"
+
+
+PLAIN_NAME = re.compile(r"[A-Za-z_]\w*(::(~?[A-Za-z_]\w*|operator(%s)))*" % "|".join(re.escape(t) for t in OP_TOKENS))
+
+
+def std_corpus(ctx):
+    """symbols of a libstdc++-heavy translation unit; oracle = c++filt -p minus template arguments, only for
+    ordinary functions (no special names, local names, lambdas, unnamed types, inheriting constructors, abi tags)"""
+    d = os.path.join(ctx.scratch, "std")
+    os.makedirs(d, exist_ok=True)
+    cc_file = os.path.join(d, "std.cc")
+    open(cc_file, "w").write(gen_std(ctx.rng))
+    names = {}
+    for comp in (("g++", "clang++") if ctx.thorough() else ("g++",)):
+        obj = os.path.join(d, comp + ".o")
+        rc, o, e = sh([comp, "-std=c++17", "-w", "-O0", "-c", cc_file, "-o", obj], timeout=180)
+        if rc != 0:
+            ctx.broken("std corpus generator produced C++ that %s rejects" % comp, e[-1500:])
+            continue
+        rc, o, e = sh(["nm", obj], timeout=60)
+        for ln in o.splitlines():
+            f = ln.split()
+            if f and f[-1].startswith("_Z"):
+                names.setdefault(f[-1], set()).add(comp)
+    ms = sorted(names)
+    rc, o, e = sh(["c++filt", "-p"], input="\n".join(ms) + "\n", timeout=60)
+    res, n_or = [], 0
+    for m, f in zip(ms, o.splitlines()):
+        want = None
+        if not re.match(r"_Z(T|G|Z|L?N?K?Z)", m) and not re.search(r"CI\d|U[lt]|B\d", m) and "{" not in f and "[abi:" not in f:
+            red = strip_targs(f)
+            if PLAIN_NAME.fullmatch(red):
+                want = red.encode()
+                n_or += 1
+        res.append((m.encode(), want, sorted(names[m])))
+    ctx.extra["corpus_std"] = {"symbols": len(ms), "with_oracle": n_or}
     return res
 
 
@@ -1066,6 +1146,8 @@ def gen_cases(ctx):
         add(n, None, "unit-test")
     for m, want, comps in cxx_corpus(ctx, ctx.n(10, 40), ctx.n(8, 30), ctx.n(1, 4)):
         add(m, want, "corpus:" + "+".join(comps))
+    for m, want, comps in std_corpus(ctx):
+        add(m, want, "corpus-std:" + "+".join(comps))
     for m, want, comps in rust_corpus(ctx, ctx.n(8, 25)):
         add(m, want, "corpus:rustc")
     for m, want in RUST_HANDMADE:
